@@ -325,6 +325,27 @@ def _regex_shape(pattern: str):
     return (ok_letters, ok_digits, r1[:2], r2[:2]), ""
 
 
+def _pattern_used_by(ctx, f, depth: int = 0):
+    """(name, pattern text, compile call) of the compiled regex that `f` - or a new helper it calls - matches well IDs with."""
+    if depth > 3:
+        return None
+    fv = ctx.fv(f)
+    for sub in own_walk(f.node):
+        if isinstance(sub, ast.Call) and isinstance(sub.func, ast.Attribute) and sub.func.attr in ("match", "fullmatch", "search") and isinstance(sub.func.value, ast.Name):
+            r = ctx.prog.resolve_name(f.module, sub.func.value.id)
+            if isinstance(r, tuple) and r[0] == "value":
+                v = r[1].assigns.get(r[2])
+                if isinstance(v, ast.Call) and call_fname(v) == "compile" and v.args and isinstance(v.args[0], ast.Constant) and isinstance(v.args[0].value, str):
+                    return (r[2], v.args[0].value, v)
+    for cs in fv.calls():
+        hv = fv._helper_view(cs.call)
+        if hv is not None:
+            got = _pattern_used_by(ctx, hv[0], depth + 1)
+            if got is not None:
+                return got
+    return None
+
+
 def regex_agreement(ctx, rule: str = "C08.regex") -> None:
     pats = {}
     for pkg in ("evotools", "fluenttools"):
@@ -332,11 +353,12 @@ def regex_agreement(ctx, rule: str = "C08.regex") -> None:
         if m is None:
             ctx.rep.inconclusive(rule, pkg, "module not found")
             return
-        found = None
-        for name, v in m.assigns.items():
-            if isinstance(v, ast.Call) and call_fname(v) == "compile" and v.args and isinstance(v.args[0], ast.Constant) and isinstance(v.args[0].value, str):
-                found = (name, v.args[0].value, v)
         f = m.functions.get("get_well_position")
+        found = _pattern_used_by(ctx, f) if f is not None else None
+        if found is None:
+            for name, v in m.assigns.items():
+                if isinstance(v, ast.Call) and call_fname(v) == "compile" and v.args and isinstance(v.args[0], ast.Constant) and isinstance(v.args[0].value, str):
+                    found = (name, v.args[0].value, v)
         if found is None or f is None:
             ctx.rep.inconclusive(rule, pkg, "well-ID regex not found")
             return
@@ -360,6 +382,12 @@ def regex_agreement(ctx, rule: str = "C08.regex") -> None:
                 from .common import raise_class
 
                 ok_raise = raise_class(fv, r)[0] == "ValueError"
+        if not ok_raise:
+            from ..guards import raising_terms
+
+            for term, n_, cls in raising_terms(fv, None):
+                if cls == "ValueError" and any(a.kind == "none" and getattr(a, "is_none", False) for a in term):
+                    ok_raise = True
         ctx.rep.check(ok_raise, rule, c + "/no-match", "a non-matching ID raises ValueError", "an ID that does not match the pattern is not rejected with ValueError", where=f.where())
     if len(pats) == 2:
         a, b = pats["evotools"][1], pats["fluenttools"][1]
@@ -553,6 +581,14 @@ def _grid_shape(gv, name: str):
             row = gv.def_expr(apps[0].call.args[0], apps[0].node)[0]
             if len(loops) == 1 and isinstance(row, ast.ListComp) and len(row.generators) == 1 and not gv.controlling(apps[0].node, within=gv.cfg.loop_body[loops[0]]):
                 return gv.cfg.nodes[loops[0]].ast.iter, row.generators[0].iter, True, loops[0]
+            # the row list is itself filled by an inner loop:  row = []; for column in IN: row.append(<id>)
+            if len(loops) == 1 and isinstance(apps[0].call.args[0], ast.Name) and not gv.controlling(apps[0].node, within=gv.cfg.loop_body[loops[0]]):
+                rname = apps[0].call.args[0].id
+                inner_apps = [cs for cs in gv.calls() if isinstance(cs.call.func, ast.Attribute) and cs.call.func.attr == "append" and is_name(cs.call.func.value, rname)]
+                if len(inner_apps) == 1:
+                    il = [h for h in gv.cfg.enclosing_loops(inner_apps[0].node) if gv.cfg.nodes[h].kind == "for"]
+                    if len(il) == 2 and il[0] == loops[0] and not gv.controlling(inner_apps[0].node, within=gv.cfg.loop_body[il[0]]):
+                        return gv.cfg.nodes[loops[0]].ast.iter, gv.cfg.nodes[il[1]].ast.iter, True, loops[0]
         return None
     # make_well_index_dict
     if isinstance(v, ast.DictComp) and len(v.generators) == 2 and isinstance(v.value, ast.Tuple) and len(v.value.elts) == 2:
